@@ -24,7 +24,7 @@ def run(ctx, rep):
         'agreement (R8.3). Numeric equality of replaced values is C10\'s subject.')
     rep.trusted = ['rustc MIR', 'HashMap/RefCell/Result models (analysis/models.py)', W.policy.FEASIBLE_NOTE]
     table = W.classify_policies(ctx)
-    pa = W.get(ctx)
+    pa = W.get(ctx, rep)
     rep.floor('policy variants', len(table), 15)
     rep.floor('worlds', len(pa.worlds), 400)
     rep.extra['worlds'] = len(pa.worlds)
